@@ -1,0 +1,14 @@
+//go:build verif
+
+package floodsub
+
+// VerifGate, when set, is called at the scheduler gate points of the Execute
+// loop (build tag verif only): "top" before an iteration, "break" between the
+// iteration's two steps.
+var VerifGate func(m *FloodSub, name string)
+
+func verifGate(m *FloodSub, name string) {
+	if f := VerifGate; f != nil {
+		f(m, name)
+	}
+}
